@@ -239,6 +239,51 @@ def r3_cache(prog, res):
             "when asked to (reSeek) the stream position is put back after the instance was read and its inverse attributes were resolved" if oks else
             "the stream position is restored before %s: what follows loads further instances and moves the stream, so the reader that was "
             "interrupted continues at the wrong offset" % (", ".join(sorted({(m.get("fn") or "").split("::")[-1] for _, m in late})) or "nothing (no restore / no mover found)"))
+    # an instance is entered into the cache before its attributes are read: reading an entity reference loads the referenced
+    # instance, and on a reference cycle that leads back to the instance being read
+    early_keys = set()
+    for g in prog.all_functions():
+        if g.name == "lazyInstMgr::loadInstance" or len(g.params) != 2:
+            continue
+        cs = [c for c in g.calls() if c.get("member") and c.get("ch") and strip(c["ch"][0]) is not None and
+              strip(c["ch"][0]).get("q") == "lazyInstMgr::_instancesLoaded" and (c.get("fn") or "").split("::")[-1] == "insert"]
+        if len(cs) == 1 and [strip(a).get("d") for a in call_args(cs[0]) if strip(a) is not None] == [p_["d"] for p_ in g.params] and \
+                len([x for x in g.walk() if x["k"] == "Call"]) == 1:
+            early_keys.add(g.key)
+    gr = prog.one("sectionReader::getRealInstance")
+    if gr is None:
+        res.broke("anchor vanished: sectionReader::getRealInstance")
+    else:
+        reads = [c for c in gr.calls() if (c.get("fn") or "").endswith("::STEPread") and
+                 any(y["k"] == "Call" and (y.get("fn") or "").endswith("getAdapter") for a in call_args(c) for y in walk(a))]
+        if not reads:
+            res.broke("R3: getRealInstance no longer reads the attributes through the manager's adapter")
+        for rd in reads:
+            okr = False
+            why = "no call that enters the instance into the loaded set precedes the attribute read"
+            for c in gr.calls():
+                if c.get("fk") not in early_keys:
+                    continue
+                a = call_args(c)
+                if len(a) != 2 or strip(a[0]) is None or strip(a[0]).get("dk") != "param":
+                    why = "the early registration is not keyed by the id asked for"
+                    continue
+                recv = strip(rd["ch"][0]) if rd.get("ch") else None
+                if strip(a[1]) is None or recv is None or strip(a[1]).get("d") != recv.get("d"):
+                    why = "the early registration does not register the object whose attributes are read"
+                    continue
+                ifs = [x for x in gr.ancestors(c) if x["k"] == "If"]
+                inner_ok = all(expr_str(strip(x["ch"][0])).replace(" ", "") in ("!header", "(!header)") and any(y is c for y in walk(x["ch"][1])) for x in ifs)
+                outer = [x for x in gr.ancestors(rd) if x["k"] == "If"]
+                ifs_extra = [x for x in ifs if not any(x is o for o in outer)]
+                pos_ok = all(gr.cfg.dominates(gr.first_pos(x["ch"][0]), gr.cfg.locate(rd)) for x in ifs_extra) if ifs_extra else gr.cfg.dominates(gr.cfg.locate(c), gr.cfg.locate(rd))
+                if all(expr_str(strip(x["ch"][0])).replace(" ", "") in ("!header", "(!header)") and any(y is c for y in walk(x["ch"][1])) for x in ifs_extra) and pos_ok:
+                    okr = True
+                else:
+                    why = "the early registration is conditional on more than `!header` or does not come before the read on every path"
+            res.add("R3.registered_before_attributes", "R3|src/cllazyfile/sectionReader.cc|getRealInstance|register-before-read", gr.where(rd), okr,
+                    "a data instance is entered into the loaded set before its attributes are read (a reference cycle finds it there)" if okr else
+                    "%s: a reference cycle (#1 -> #2 -> #1) makes loadInstance recurse until the stack overflows" % why)
     n = 0
     for g in prog.all_functions():
         for c in g.calls():
@@ -246,7 +291,8 @@ def r3_cache(prog, res):
                     (c.get("fn") or "").split("::")[-1] in MUT:
                 n += 1
                 m = (c.get("fn") or "").split("::")[-1]
-                ok = g.name == "lazyInstMgr::loadInstance" or (m == "clear" and g.name in ("lazyInstMgr::~lazyInstMgr", "lazyInstMgr::unloadInstances"))
+                ok = g.name == "lazyInstMgr::loadInstance" or (m == "clear" and g.name in ("lazyInstMgr::~lazyInstMgr", "lazyInstMgr::unloadInstances")) or \
+                    (m == "insert" and g.key in early_keys)
                 res.add("R3.who_writes_cache", "R3|%s|%s|_instancesLoaded.%s" % (g.relfile(), g.name, m), g.where(c), ok,
                         "_instancesLoaded.%s in %s" % (m, g.name) if ok else "%s writes the loaded-instance cache" % g.name)
     res.floor("R3", "writers of the loaded-instance cache", n, 1)
@@ -289,6 +335,50 @@ def r4_closure(prog, res):
     ok = any(strip(i["ch"][0]).get("d") == cvar and not [a for a in f.ancestors(i) if a["k"] == "If" and any(y is a for y in walk(lp))] for i in incs)
     res.add("R4.cursor_advances", "R4|src/cllazyfile/lazyInstMgr.cc|instanceDependencies|cursor", f.where(lp), ok,
             "the cursor advances in every iteration" if ok else "the work-list cursor is not advanced unconditionally")
+    # the queue indexed by the cursor only grows at its end while it is walked: removing or inserting in front of the
+    # cursor shifts an unvisited element into a visited slot (or a visited one back), and the closure misses / repeats it
+    q = None
+    c0 = strip(lp["ch"][0])
+    if c0 is not None and c0["k"] == "Binary":
+        for side in c0["ch"]:
+            sc = strip(side)
+            if sc is not None and sc["k"] == "Call" and (sc.get("fn") or "").split("::")[-1] == "size" and sc.get("ch"):
+                r = strip(sc["ch"][0])
+                if r is not None and r["k"] == "Ref":
+                    q = r
+    if q is None:
+        res.broke("R4: the work-list loop of instanceDependencies is not bounded by <queue>.size() any more")
+        return
+    bad = []
+    nq = 0
+    for c in walk(lp["ch"][1]):
+        if c["k"] != "Call" or not c.get("member") or not c.get("ch"):
+            continue
+        r = strip(c["ch"][0])
+        if r is None or r["k"] != "Ref" or r.get("d") != q["d"]:
+            continue
+        nq += 1
+        m = (c.get("fn") or "").split("::")[-1]
+        if m in ("size", "at", "operator[]", "end", "cend", "push_back", "emplace_back", "empty", "back"):
+            continue
+        if m == "insert":
+            a = call_args(c)
+            first = [y for y in walk(a[0]) if y["k"] == "Call"] if a else []
+            if first and (first[-1].get("fn") or "").split("::")[-1] in ("end", "cend") and strip(first[-1]["ch"][0]) is not None \
+                    and strip(first[-1]["ch"][0]).get("d") == q["d"]:
+                continue
+        # harmless when the cursor is not advanced afterwards in the same iteration (`erase(..); continue;`)
+        condn = strip(lp["ch"][0])
+        cur_incs = [i for i in incs if strip(i["ch"][0]).get("d") == cvar]
+        if cur_incs and not any(f.cfg.reaches(f.cfg.locate(c), f.cfg.locate(i), lambda e: e is condn or e is lp["ch"][0]) for i in cur_incs):
+            continue
+        bad.append(c)
+    res.add("R4.queue_only_grows_at_end", "R4|src/cllazyfile/lazyInstMgr.cc|instanceDependencies|queue", f.where(bad[0]) if bad else f.where(lp), not bad,
+            "inside the loop `%s` is only read and appended to at its end (%d uses)" % (q["n"], nq) if not bad else
+            "`%s` is walked by index but %s() changes it inside the loop other than by appending at its end: an unvisited element "
+            "moves into an already visited slot and is never examined" % (q["n"], (bad[0].get("fn") or "").split("::")[-1]))
+    if nq < 3:
+        res.broke("R4: fewer than 3 uses of the work list inside its loop (%d)" % nq)
 
 
 def r5_comments(prog, res):
